@@ -90,6 +90,7 @@ type linkResult struct {
 	Tx       float64     `json:"tx"`
 	Ops      []opResult  `json:"ops,omitempty"`
 	Align    [][]string  `json:"align,omitempty"`
+	Listing  json.RawMessage `json:"listing,omitempty"` // what GET /proxies/<p>/toxics would answer at the end of the history
 	More     []linkResult `json:"more,omitempty"` // further links of the same case
 	Draws    []int64      `json:"draws,omitempty"` // mirrored PRNG values after the reseed
 	StartDraws []float64  `json:"start_draws,omitempty"` // the first Float32 values of the source seeded at case start
@@ -385,6 +386,9 @@ func runLinkCase(t *testing.T, c *linkCase) linkResult {
 		results[k] = r
 	}
 	results[0].Align = alignment(proxy)
+	if lb, err := json.Marshal(proxy.Toxics.GetToxicArray()); err == nil {
+		results[0].Listing = lb
+	}
 	// teardown: end every source; everything must drain and exit
 	for k := 0; k < nl; k++ {
 		pws[k].Close()
